@@ -15,13 +15,18 @@ Require Import Nib.C04.Model Nib.C04.Spec Nib.C04.Proofs.
     accounts by bank sends on the cache context — what StateDB.Commit writes (accounts, bank
     balances, code, storage: [commit]) is exactly the final state of the copy-on-frame reference
     ([r_final (rrun …)]: a reverted frame restores the joint EVM x bank state it started with and
-    nothing else), and so are the journaled tx data.  No bound on anything. *)
+    nothing else), and so are the journaled tx data.  No bound on anything.  [bl] are blocked module
+    accounts: a flush (before a precompile call, or the final one) that would have to credit one of
+    them FAILS after writing a prefix of the dirty accounts; the precompile call then fails and the
+    prefix is undone with the frame.  StateDB.Commit itself returns an error exactly when the
+    reference still holds such a credit at the end ([commit_fails s = r_pending r]; the tx then
+    fails as a whole). *)
 Theorem C04_frame_atomicity :
-  forall (mx : Z) (t0 : store) (body : list prog),
-    wf_body mx body (r_init t0) = true ->
-    let s := run (PFrame body false) (init {| repaired := true; maxc := mx |} t0) in
-    let r := rrun mx (PFrame body false) (r_init t0) in
-    store_eq (commit s) (r_final r) /\ auxeq (aux s) (r_aux r).
+  forall (mx : Z) (bl : list addr) (t0 : store) (body : list prog),
+    wf_body mx body (r_init bl t0) = true ->
+    let s := run (PFrame body false) (init {| repaired := true; maxc := mx; blocked := bl |} t0) in
+    let r := rrun mx (PFrame body false) (r_init bl t0) in
+    store_eq (commit s) (r_final r) /\ auxeq (aux s) (r_aux r) /\ commit_fails s = r_pending r.
 Proof. exact frame_atomicity. Qed.
 Print Assumptions C04_frame_atomicity.
 
@@ -40,8 +45,9 @@ Print Assumptions C04_reverted_frame_invisible.
     OnRunStart and after each of its bank sends, hence at its return — for every account that has
     not self-destructed: bank balance on the cache ctx = StateDB balance / 10^12. *)
 Theorem C04_balance_views_agree :
-  forall (mx : Z) (t0 : store) (s : sdb) (r : rstate) (sends : list (addr * addr * Z)) (fails : bool) (i : nat),
-    reach mx t0 s r -> wf mx (PPrecompile sends fails) r = true -> (mx <? calls s + 1) = false ->
+  forall (mx : Z) (bl : list addr) (t0 : store) (s : sdb) (r : rstate) (sends : list (addr * addr * Z)) (fails : bool) (i : nat),
+    reach mx bl t0 s r -> wf mx (PPrecompile sends fails) r = true -> (mx <? calls s + 1) = false ->
+    r_pending (r_with_calls r (calls s + 1)) = false ->
     let s' := run_sends (firstn i sends) (commit_cache (precompile_snapshot s)) in
     forall a o, lookup s' a = Some o -> suicided o = false -> bank_bal (cur_store s') a = to_native (bal o).
 Proof. exact balance_views_agree. Qed.
@@ -51,8 +57,8 @@ Print Assumptions C04_balance_views_agree.
     slot and GetCommittedState(a,k) the value the slot had when the transaction started — in
     particular a reverted frame (with or without precompile calls) leaves no trace in either. *)
 Theorem C04_reads_see_reference :
-  forall (mx : Z) (t0 : store) (s : sdb) (r : rstate) (a : addr) (k : key),
-    reach mx t0 s r ->
+  forall (mx : Z) (bl : list addr) (t0 : store) (s : sdb) (r : rstate) (a : addr) (k : key),
+    reach mx bl t0 s r ->
     read_vals s a k = match r_accs r a with Some _ => (r_stor r a k, stor t0 a k) | None => (0, 0) end.
 Proof. exact reads_see_reference_reach. Qed.
 Print Assumptions C04_reads_see_reference.
@@ -69,6 +75,20 @@ Theorem C04_call_limit :
 Proof. exact call_limit. Qed.
 Print Assumptions C04_call_limit.
 
+(** REFUSED CALLS in general: over the limit, or the pre-run flush fails because a blocked module
+    account would have to be credited (commitCtx stops at the first error, after having written the
+    dirty accounts sorted before it): the call fails, the state is (a refinement of) the state
+    before it — the written prefix is undone by the PrecompileCalled entry that is already in the
+    journal — and what Commit would write is unchanged. *)
+Theorem C04_refused_call_has_no_effect :
+  forall (mx : Z) (s : sdb) (r : rstate) (sends : list (addr * addr * Z)) (fails : bool),
+    Inv mx s r -> (mx < calls s + 1 \/ r_pending (r_with_calls r (calls s + 1)) = true) ->
+    le s (precompile_call s sends fails) /\
+    calls (precompile_call s sends fails) = calls s + 1 /\
+    store_eq (commit (precompile_call s sends fails)) (commit s).
+Proof. exact refused_call. Qed.
+Print Assumptions C04_refused_call_has_no_effect.
+
 (** … and the counter counts every precompile call of the script, reverted or not, at any depth. *)
 Theorem C04_every_call_counts :
   forall (p : prog) (s : sdb), calls (run p s) = calls s + Z.of_nat (ncalls p).
@@ -78,20 +98,20 @@ Print Assumptions C04_every_call_counts.
 (** Every reachable program point satisfies the invariant used above (so C04_call_limit applies
     at every point of every well-formed script). *)
 Theorem C04_reachable_invariant :
-  forall (mx : Z) (t0 : store) (s : sdb) (r : rstate), reach mx t0 s r -> Inv mx s r.
+  forall (mx : Z) (bl : list addr) (t0 : store) (s : sdb) (r : rstate), reach mx bl t0 s r -> Inv mx s r.
 Proof. exact reach_Inv. Qed.
 Print Assumptions C04_reachable_invariant.
 
 (** The boolean checker evaluated on implementation traces is sound for [P]. *)
-Theorem C04_checker_sound : forall mx t0 body o, Pb mx t0 body o = true -> P mx t0 body o.
+Theorem C04_checker_sound : forall mx bl t0 body o, Pb mx bl t0 body o = true -> P mx bl t0 body o.
 Proof. exact Pb_sound. Qed.
 Print Assumptions C04_checker_sound.
 
 (** Observables that agree with the model agree with the reference (well-formed scripts). *)
 Theorem C04_model_agreement_gives_reference :
-  forall mx t0 body o, wf_body mx body (r_init t0) = true ->
-    let s := run (PFrame body false) (init {| repaired := true; maxc := mx |} t0) in
-    let r := rrun mx (PFrame body false) (r_init t0) in
+  forall mx bl t0 body o, wf_body mx body (r_init bl t0) = true ->
+    let s := run (PFrame body false) (init {| repaired := true; maxc := mx; blocked := bl |} t0) in
+    let r := rrun mx (PFrame body false) (r_init bl t0) in
     final_matches (commit s) (aux s) o = final_matches (r_final r) (r_aux r) o.
 Proof. exact model_agreement_gives_reference. Qed.
 Print Assumptions C04_model_agreement_gives_reference.
@@ -101,7 +121,7 @@ Print Assumptions C04_model_agreement_gives_reference.
     self-destruct (F2d) — each a well-formed script on which the model of the old code commits a
     state different from the reference, while the model of the current code agrees. *)
 Theorem C04_frame_atomicity_refuted_before_fix :
-  Forall (fun w => wf_body 10 w (r_init t_w) = true /\
+  Forall (fun w => wf_body 10 w (r_init [] t_w) = true /\
                    agrees_at false 10 t_w w [1; 2; 3; 4] [1] = false /\
                    agrees_at true 10 t_w w [1; 2; 3; 4] [1] = true)
          [w_lost_sstore; w_supply_mint; w_stale_object; w_forgotten_selfdestruct].
